@@ -9,8 +9,144 @@ against the extracted model + specification + in-harness reference incl. the loc
 operation; (3) the contract-visible InstanceState operations with interrupts (commit / rollback of
 re-entrant calls, stale and forged ids) against the extracted InstanceState model and an independent reference."""
 import json
+import hashlib
 from . import common as c
 from . import trie_common as tc
+
+
+def _klist(hexkey):
+    return "[" + "; ".join(str(int(hexkey[i:i + 2], 16)) for i in range(0, len(hexkey), 2)) + "]"
+
+
+def _slab_part(ctx, binp):
+    """Slab-level tie: real PrefixesMap (hook slab_dump) against sm_trace of coq/Trie/SlabPrefixMap.v after EVERY
+    operation: result, root key, nodes.len(), every occupied cell (slab key, count, children list), plus the
+    direct structural oracle on the real slab (no dangling key, no leak, no empty leaf, children strictly sorted)."""
+    n = 150 if ctx.quick else 6000
+    rc, out = c.run_bin(binp, ["slab", str(ctx.seed), str(n)], timeout=600)
+    cases = [json.loads(l[2:]) for l in out.split("\n") if l.startswith("S ")]
+    stats = {"histories": len(cases), "ops": 0, "by_op": {}, "max_cells": 0, "key_reuse_seen": 0, "root_dropped": 0,
+             "too_many_iterators": 0, "pruned_branch": 0}
+    if rc != 0 or len(cases) != n:
+        ctx.violation({"layer": "c15 slab harness", "rc": rc, "lines": len(cases)}, "c15 slab harness failed", no_input=True)
+        return stats
+    opmap = {"i": "HOp (PIns %s)", "d": "HOp (PDel %s)", "c": "HOp (PCheck %s)", "h": "HOp (PIohp %s)"}
+    exprs = []
+    for cs in cases:
+        ops = []
+        for name, k, cnt in cs["ops"][:len(cs["tr"])]:
+            ops.append(("HSet %s %d" % (_klist(k), cnt)) if name == "s" else opmap[name] % _klist(k))
+        exprs.append("sm_trace [%s] sm_empty" % "; ".join(ops))
+    pre = ("From Coq Require Import NArith List.\nFrom CB Require Import Trie.PrefixMap Trie.SlabPrefixMap.\n"
+           "Import ListNotations.\nOpen Scope N_scope.\n")
+    terms = c.coq_eval(ctx, "c15slab", pre, exprs, shard=25)
+    distinct = set()
+    nbad = 0
+    for cs, term in zip(cases, terms):
+        maxkey_prev = -1
+        prev_occ = 0
+        for j, real in enumerate(cs["tr"]):
+            name, k, cnt = cs["ops"][j]
+            stats["ops"] += 1
+            stats["by_op"][name] = stats["by_op"].get(name, 0) + 1
+            mod = term[j] if j < len(term) else None
+            bad = None
+            if real == "PANIC" or mod == "None" or mod is None:
+                if not (real == "PANIC" and mod == "None"):
+                    bad = "panic mismatch"
+                else:
+                    bad = "PrefixesMap panicked (model too: invariant violation)"
+            else:
+                flag, root, occ, cells, dump, nn, empty = real
+                _, (mflag, (mroot, mlen, mcells), mnoleak, mabs) = mod
+                rroot = None if root < 0 else root
+                mr = None if mroot == "None" else mroot[1]
+                rc_ = [(a, b_, [tuple(x) for x in kids]) for a, b_, kids in cells]
+                mc_ = [(a, b_, [tuple(x) for x in kids]) for (a, b_, kids) in mcells]
+                rd = sorted((bytes.fromhex(a), b_) for a, b_ in dump)
+                md = sorted((bytes(x), y) for x, y in mabs)
+                if name != "s" and flag != (mflag == "true"):
+                    bad = "result %s vs model %s" % (flag, mflag)
+                elif rroot != mr or occ != mlen or nn != occ or rc_ != mc_:
+                    bad = "slab differs: real root=%s len=%s cells=%s / model root=%s len=%s cells=%s" % (rroot, occ, rc_, mr, mlen, mc_)
+                elif rd != md:
+                    bad = "denoted (key,count) set differs"
+                elif mnoleak != "true":
+                    bad = "slab holds cells that are not nodes of the trie (leak)"
+                elif empty != (rroot is None):
+                    bad = "root is None iff empty violated"
+                else:
+                    # direct oracle on the real slab
+                    occd = {a: (b_, kids) for a, b_, kids in rc_}
+                    seen = []
+                    stack = [rroot] if rroot is not None else []
+                    while stack and not bad:
+                        x = stack.pop()
+                        if x not in occd:
+                            bad = "dangling slab key %s" % x
+                            break
+                        seen.append(x)
+                        cnt_x, kids = occd[x]
+                        bs = [b_ for b_, _ in kids]
+                        if bs != sorted(set(bs)):
+                            bad = "children of %s not strictly sorted" % x
+                        if not kids and cnt_x == 0:
+                            bad = "empty leaf %s" % x
+                        stack.extend(j2 for _, j2 in kids)
+                    if not bad and (len(seen) != len(set(seen)) or set(seen) != set(occd)):
+                        bad = "occupied cells %s != reachable nodes %s" % (sorted(occd), sorted(seen))
+                    if name == "i" and not flag:
+                        stats["too_many_iterators"] += 1
+                    if name == "i" and flag and occ > prev_occ and rc_ and max(a for a, _, _ in rc_) <= maxkey_prev:
+                        stats["key_reuse_seen"] += 1
+                    if name == "d" and flag and occ < prev_occ - 1:
+                        stats["pruned_branch"] += 1
+                    if name == "d" and flag and rroot is None:
+                        stats["root_dropped"] += 1
+                    maxkey_prev = max([maxkey_prev] + [a for a, _, _ in rc_])
+                    prev_occ = occ
+                    stats["max_cells"] = max(stats["max_cells"], occ)
+                    if occ:
+                        distinct.add(hashlib.sha1(json.dumps([rc_, rroot]).encode()).hexdigest())
+            if bad:
+                nbad += 1
+                if nbad <= 3:
+                    ctx.violation({"layer": "slab-level PrefixesMap vs coq/Trie/SlabPrefixMap.v (sm_trace)",
+                                   "ops": cs["ops"][:j + 1], "step": j, "real": real,
+                                   "replay_hint": ".cache/target/release/c15 slab %s %d  (case %d)" % (ctx.seed, n, cs["case"])},
+                                  "PrefixesMap slab history: %s" % bad)
+                break
+    stats["distinct_slab_states"] = len(distinct)
+    return stats
+
+
+def _limits_part(ctx, binp):
+    """Real InstanceStateEntry::new / split against h_enc / h_split of coq/Trie/InstLimits.v (indices up to 2^33)."""
+    n = 200 if ctx.quick else 8000
+    rc, out = c.run_bin(binp, ["limits", str(ctx.seed), str(n)], timeout=300)
+    cases = [json.loads(l[2:]) for l in out.split("\n") if l.startswith("L ")]
+    st = {"cases": len(cases), "idx_ge_2^32": 0, "misdecoded_on_real_code": 0}
+    if rc != 0 or len(cases) != n:
+        ctx.violation({"layer": "c15 limits harness", "rc": rc}, "c15 limits harness failed", no_input=True)
+        return st
+    pre = ("From Coq Require Import NArith List.\nFrom CB Require Import Trie.InstLimits.\nOpen Scope N_scope.\n")
+    terms = c.coq_eval(ctx, "c15lim", pre, ["(h_enc %d %s, h_split (h_enc %d %s))" % (x["gen"], x["idx"], x["gen"], x["idx"])
+                                            for x in cases], shard=100)
+    for x, t in zip(cases, terms):
+        idx = int(x["idx"])
+        if idx >= 1 << 32:
+            st["idx_ge_2^32"] += 1
+            if (x["g2"], x["i2"]) != (x["gen"], idx):
+                st["misdecoded_on_real_code"] += 1
+        h, (g2, i2) = t
+        if (h, g2, i2) != (int(x["h"]), x["g2"], x["i2"]):
+            ctx.violation({"layer": "InstanceStateEntry::new/split vs h_enc/h_split", "case": x, "model": [h, g2, i2]},
+                          "handle encoding differs from coq/Trie/InstLimits.v")
+            break
+        if idx < 1 << 32 and (x["g2"], x["i2"]) != (x["gen"], idx):
+            ctx.violation({"layer": "InstanceStateEntry round trip", "case": x}, "split(new(gen, idx)) != (gen, idx) below 2^32")
+            break
+    return st
 
 
 def run(ctx):
@@ -24,7 +160,14 @@ def run(ctx):
         "limits are not modelled",
         "interrupts are simulated as the scheduler drives them: suspend, make_fresh_generation, inner call, then resume on the "
         "new state with state_updated=true iff the inner call succeeded and touched the state, else on the old state",
-        "energy accounting of these operations is not checked here (C02/C14)",
+        "energy: the theorems about the refused paths are about the host-function model Contract/HostV1.v, which is tied to "
+        "v1/mod.rs + v1/types.rs by the C14 correspondence (consumed energy compared call by call); no separate energy "
+        "correspondence is run here",
+        "slab level: coq/Trie/SlabPrefixMap.v models the slab free list as an explicit LIFO stack (the crate threads it through "
+        "the vacant entries), binary search as a scan of the sorted children list, the delete stack by (node, byte); the real "
+        "slab (offline shim of `slab` with the same LIFO reuse) is compared cell by cell after every operation",
+        "handle limits: coq/Trie/InstLimits.v; index / generation overflow are stated as theorems about the arithmetic, the "
+        "histories needed (2^32 ids in one generation, 2^32 state-changing interrupts) are not run",
     ]
     st = tc.setup(ctx)
     if st is None:
@@ -60,6 +203,12 @@ def run(ctx):
         ctx.violation({"case": "MutableTrie: iter on `a`, lock count of `a` set to u32::MAX (hook), iter on `a` again",
                        "observed": ov},
                       "lock-count overflow is not reported as TooManyIterators without changing the locks: %s" % ov)
+    ok15, bin15 = c.cargo_build(ctx, "c15")
+    if not ok15:
+        ctx.violation({"layer": "cargo build c15", "output": str(bin15)[-1500:]}, "harness c15 does not build", no_input=True)
+    else:
+        ctx.notes["slab_histories"] = _slab_part(ctx, bin15)
+        ctx.notes["handle_limits"] = _limits_part(ctx, bin15)
     ctx.cov["rule"] = (
         "prefix-map histories: 1-300 insert/delete/check_has_no_prefix/is_or_has_prefix/dump over the adversarial key universe "
         "(see C03), counts driven to u32::MAX-2..u32::MAX through the hook before inserting; state histories: profile c15 "
